@@ -384,6 +384,9 @@ def _num(e):
 
 
 def run(ctx):
+    from . import c03 as _c03
+
+    _c03.check_is_constant(ctx, "C16-D2 trotter-structure")
     from ..lints import check_caches
 
     check_caches(ctx, "C16-D5 caches", ['evolution'])
